@@ -1374,3 +1374,437 @@ func rootedCall(info *types.Info, e ast.Expr, argRooted func(ast.Expr) bool) boo
 	// a method whose receiver carries the context (stream.Context()) is not a derivation from the parameter
 	return false
 }
+
+// c06ReleaseThenHandsOff (seeded C06-D): Pool.Release clears an element before it publishes it on the free list;
+// once published (the append to p.free) the releaser no longer touches the elements - another goroutine may have
+// acquired them already.
+func c06ReleaseThenHandsOff(p *Prog, r *Report, rule string) {
+	k := "(*internal/model/core.Pool).Release"
+	fi := p.Func(k)
+	if fi == nil {
+		r.Undecided(rule, k, "", "Pool.Release not found")
+		return
+	}
+	info := fi.Pkg.TypesInfo
+	f := p.FlatInl(fi)
+	els := paramObjs(fi)[0]
+	// values derived from the released elements: the parameter and range variables over it
+	derived := map[types.Object]bool{els: true}
+	for _, n := range f.Nodes {
+		if id, ok := n.Ast.(*ast.Ident); ok && n.Block != nil && n.Block.Kind.String() == "RangeLoop" || false {
+			_ = id
+		}
+	}
+	for _, rs := range rangeLoops(fi.Decl.Body) {
+		if ro := rootIdentObj(info, rs.X); ro != nil && derived[ro] {
+			if rs.Value != nil {
+				if o := objOf(info, rs.Value); o != nil {
+					derived[o] = true
+				}
+			}
+		}
+	}
+	var pubs []int
+	for _, n := range f.Nodes {
+		as, ok := n.Ast.(*ast.AssignStmt)
+		if !ok {
+			continue
+		}
+		for _, l := range as.Lhs {
+			if sel, ok := ast.Unparen(l).(*ast.SelectorExpr); ok && sel.Sel.Name == "free" {
+				pubs = append(pubs, n.ID)
+			}
+		}
+	}
+	if len(pubs) == 0 {
+		r.Undecided(rule, k+"#publication", p.pos(fi.Decl), "no assignment of the free list found")
+		return
+	}
+	bad := ""
+	for _, pub := range pubs {
+		after := f.Reach(f.succsOf(pub), nil, nil)
+		for id := range after {
+			n := f.Nodes[id]
+			if n.Ast == nil || id == pub {
+				continue
+			}
+			if _, isRet := n.Ast.(*ast.ReturnStmt); isRet {
+				continue
+			}
+			touched := false
+			ast.Inspect(n.Ast, func(x ast.Node) bool {
+				if idn, ok := x.(*ast.Ident); ok {
+					if o := info.Uses[idn]; o != nil && derived[o] {
+						touched = true
+					}
+				}
+				return !touched
+			})
+			if touched {
+				bad = p.pos(n.Ast)
+			}
+		}
+	}
+	r.Check(bad == "", rule, k+"#hands-off-after-publication", p.pos(f.Nodes[pubs[0]].Ast), "elements are cleared before they are published; nothing touches them afterwards",
+		"Release publishes the elements on the free list and still works on them afterwards (at "+bad+"): a concurrent Acquire can hand out an element that is being cleared - a fresh transaction receives a store whose map is wiped under it (lost write, or a fatal concurrent map write)")
+}
+
+// c14FreshLists (seeded C14-C): a delete list returned by the core is owned by the caller: it is built in a slice
+// allocated by the call (make / nil / literal, grown with append) and is not kept in, or taken from, a field of
+// the use case. The list outlives the call (it is walked later by a pool worker).
+func c14FreshLists(p *Prog, r *Report, rule string) {
+	n := 0
+	for _, k := range []string{kUpdateTx, kCoreDeleteTx, kCoreDeleteOld, kCoreLoad} {
+		fi := p.Func(k)
+		if fi == nil {
+			continue
+		}
+		info := fi.Pkg.TypesInfo
+		f := p.FlatInl(fi)
+		// result variables of slice type: named results and variables returned
+		lists := map[types.Object]bool{}
+		res := fi.Sig().Results()
+		for i := 0; i < res.Len(); i++ {
+			if _, ok := res.At(i).Type().Underlying().(*types.Slice); ok && res.At(i).Name() != "" {
+				lists[res.At(i)] = true
+			}
+		}
+		for _, id := range f.ReturnNodes() {
+			if rs := f.returnStmt(id); rs != nil {
+				for _, e := range rs.Results {
+					if o := objOf(info, e); o != nil {
+						if _, ok := o.Type().Underlying().(*types.Slice); ok {
+							lists[o] = true
+						}
+					}
+				}
+			}
+		}
+		for o := range lists {
+			n++
+			cons := fmt.Sprintf("%s#list %s is owned by the caller", k, o.Name())
+			bad := ""
+			for _, gn := range f.Nodes {
+				as, ok := gn.Ast.(*ast.AssignStmt)
+				if !ok || len(as.Lhs) != len(as.Rhs) {
+					continue
+				}
+				for i, l := range as.Lhs {
+					// list = <expr>
+					if objOf(info, l) == o {
+						rhs := ast.Unparen(as.Rhs[i])
+						okRhs := false
+						switch x := rhs.(type) {
+						case *ast.Ident:
+							okRhs = isNilIdent(info, x)
+						case *ast.CompositeLit:
+							okRhs = true
+						case *ast.CallExpr:
+							if id, isId := x.Fun.(*ast.Ident); isId {
+								if _, isB := info.Uses[id].(*types.Builtin); isB {
+									switch id.Name {
+									case "make":
+										okRhs = true
+									case "append":
+										okRhs = len(x.Args) > 0 && objOf(info, x.Args[0]) == o
+									}
+								}
+							}
+						}
+						if !okRhs {
+							bad = p.pos(as) + ": the list is taken from " + types.ExprString(rhs)
+						}
+					}
+					// field = list
+					if sel, isSel := ast.Unparen(l).(*ast.SelectorExpr); isSel {
+						if fv, ok := info.Uses[sel.Sel].(*types.Var); ok && fv.IsField() && rootIdentObj(info, as.Rhs[i]) == o {
+							bad = p.pos(as) + ": the list is kept in the field " + fv.Name()
+						}
+					}
+				}
+			}
+			r.Check(bad == "", rule, cons, p.pos(fi.Decl), "allocated by the call and handed over",
+				"the delete list shares its backing array with storage that outlives the call ("+bad+"): the next call overwrites the list while a pool worker is still walking it - the contents of the first transaction are never deleted")
+		}
+	}
+	r.Floor(rule, "core-delete-lists", n, 4)
+}
+
+// c14VisitsEveryFile (seeded C14-D): cleaner.DeleteFiles attempts every file of its list: inside the loop over
+// the list, every path from the start of an iteration to the next iteration passes the call of deleteFile, and
+// nothing leaves the loop early. A list that is abandoned half way is never queued again.
+func c14VisitsEveryFile(p *Prog, r *Report, rule string) {
+	fi := p.Func(kDeleteFiles)
+	if fi == nil {
+		r.Undecided(rule, kDeleteFiles, "", "cleaner.DeleteFiles not found")
+		return
+	}
+	info := fi.Pkg.TypesInfo
+	f := p.FlatOf(fi)
+	var listParam types.Object
+	for _, o := range paramObjs(fi) {
+		if o != nil {
+			if _, ok := o.Type().Underlying().(*types.Slice); ok {
+				listParam = o
+			}
+		}
+	}
+	var loop *ast.RangeStmt
+	for _, rs := range rangeLoops(fi.Decl.Body) {
+		if objOf(info, rs.X) == listParam && listParam != nil {
+			loop = rs
+		}
+	}
+	cons := kDeleteFiles + "#every-file-attempted"
+	if loop == nil {
+		r.Undecided(rule, cons, p.pos(fi.Decl), "no loop over the list parameter")
+		return
+	}
+	head := f.loopHead(loop)
+	del := p.keysPred("(*internal/usecase/cleaner.UseCase).deleteFile")
+	dels := setOf(f.NodesMust(del))
+	inLoop := func(n *GNode) bool {
+		return n.Ast != nil && n.Ast.Pos() >= loop.Body.Pos() && n.Ast.End() <= loop.Body.End()
+	}
+	var start []int
+	for _, e := range f.Nodes[head].Succs {
+		if e.Label == 1 {
+			start = append(start, e.To)
+		}
+	}
+	reach := f.Reach(start, func(n *GNode) bool { return dels[n.ID] }, nil)
+	bad := ""
+	for id := range reach {
+		n := f.Nodes[id]
+		if id == head {
+			bad = "an iteration can end without the deletion being attempted"
+		}
+		if n.Ast != nil && !inLoop(n) && id != head {
+			bad = "the loop can be left at " + p.pos(n.Ast) + " before every file has been attempted"
+		}
+	}
+	// after the deletion attempt: only back to the head
+	for d := range dels {
+		after := f.Reach(f.succsOf(d), func(n *GNode) bool { return n.ID == head }, nil)
+		for id := range after {
+			n := f.Nodes[id]
+			if n.Ast != nil && !inLoop(n) {
+				bad = "the loop can be left at " + p.pos(n.Ast) + " after a failed deletion, before every file has been attempted"
+			}
+		}
+	}
+	r.Check(bad == "" && len(dels) > 0, rule, cons, p.pos(loop), "every file of the list is attempted",
+		bad+": the rest of the list is abandoned and nothing queues it again - the contents stay on disk until the next restart")
+}
+
+// c17RegisterAfterMkdir (seeded C17-C): the directory registry records a directory only after it exists: in
+// dir.Create the registry writes are reachable only after MkdirAll succeeded.
+func c17RegisterAfterMkdir(p *Prog, r *Report, rule string) {
+	k := "(*internal/repository/dir.Repo).Create"
+	fi := p.Func(k)
+	if fi == nil {
+		r.Undecided(rule, k, "", "dir.Create not found")
+		return
+	}
+	info := fi.Pkg.TypesInfo
+	f := p.FlatInl(fi)
+	var mk []callSite
+	for _, n := range f.Nodes {
+		if n.Ast == nil {
+			continue
+		}
+		for _, c := range callsIn(n.Ast, false) {
+			if isFunc(info, c, "os", "MkdirAll") || isFunc(info, c, "os", "Mkdir") || p.callIs(fi.Pkg, c, "internal/utils/os.MkdirAll") {
+				mk = append(mk, f.bindOf(n, c))
+			}
+		}
+	}
+	var writes []int
+	for _, n := range f.Nodes {
+		touched := false
+		switch st := n.Ast.(type) {
+		case *ast.AssignStmt:
+			for _, l := range st.Lhs {
+				if rootIsField(info, l) {
+					touched = true
+				}
+			}
+		case *ast.IncDecStmt:
+			touched = rootIsField(info, st.X)
+		}
+		if touched {
+			writes = append(writes, n.ID)
+		}
+	}
+	cons := k + "#registered-only-after-mkdir"
+	if len(mk) != 1 || len(writes) == 0 {
+		r.Undecided(rule, cons, p.pos(fi.Decl), fmt.Sprintf("%d mkdir calls, %d registry writes", len(mk), len(writes)))
+		return
+	}
+	pre := true
+	for _, w := range writes {
+		if !f.MustPrecede(setOf([]int{mk[0].Node}), w) {
+			pre = false
+		}
+	}
+	g, _, st := f.GatedBy(mk[0], writes)
+	r.Check(pre && g, rule, cons, p.pos(mk[0].Call), "the registry is updated only after MkdirAll succeeded",
+		"the directory is entered into the registry before (or although) its creation failed ("+strings.Join(st, ",")+"): a directory that does not exist stays registered as the root's active directory and every later write of every root fails until restart")
+}
+
+func rootIsField(info *types.Info, e ast.Expr) bool {
+	for {
+		switch x := ast.Unparen(e).(type) {
+		case *ast.IndexExpr:
+			e = x.X
+		case *ast.SelectorExpr:
+			fv, ok := info.Uses[x.Sel].(*types.Var)
+			return ok && fv.IsField()
+		default:
+			return false
+		}
+	}
+}
+
+// c13HandleIdentityImmutable (seeded C13-D): a transaction handle names one transaction for ever: the id of the
+// handle types is set where the handle is constructed (composite literal) and never assigned afterwards, so a
+// handle the caller still holds can never come to denote a later transaction.
+func c13HandleIdentityImmutable(p *Prog, r *Report, rule string) {
+	n := 0
+	for _, pk := range []string{"pkg/inline/db", pkgExtDB} {
+		pkg := p.Pkg(pk)
+		if pkg == nil {
+			continue
+		}
+		info := pkg.TypesInfo
+		bad := ""
+		lits := 0
+		for _, k := range sortedFuncKeys(p) {
+			fi := p.Funcs[k]
+			if fi.Pkg != pkg || fi.Decl.Body == nil {
+				continue
+			}
+			ast.Inspect(fi.Decl.Body, func(x ast.Node) bool {
+				switch st := x.(type) {
+				case *ast.AssignStmt:
+					for _, l := range st.Lhs {
+						if sel, ok := ast.Unparen(l).(*ast.SelectorExpr); ok && sel.Sel.Name == "id" {
+							if tv, ok := info.Types[sel.X]; ok && strings.HasSuffix(strings.TrimPrefix(tv.Type.String(), "*"), pk+".tx") {
+								bad = p.pos(st)
+							}
+						}
+					}
+				case *ast.CompositeLit:
+					if tv, ok := info.Types[st]; ok && strings.HasSuffix(tv.Type.String(), pk+".tx") {
+						lits++
+					}
+				}
+				return true
+			})
+		}
+		n += lits
+		r.Check(bad == "" && lits > 0, rule, pk+".tx#id-set-only-at-construction", bad, "the handle's id is set in its composite literal only",
+			"the id of an existing transaction handle is assigned at "+bad+": a handle object is re-used for another transaction, so an ended handle that the caller still holds acts on (commits, rolls back, reads inside) somebody else's open transaction")
+	}
+	r.Floor(rule, "transaction-handle-constructions", n, 2)
+}
+
+// c10CopySourceIsPlainReader (seeded C10-D): content.Store resumes a failed write on the next root from
+// {bytes already taken from the source but not written} + {rest of the source}. That accounting is only right
+// when io.Copy moves the data through Read/Write pairs; a source that implements io.WriterTo (bytes.Reader of
+// every inline Set) writes everything in one call and is then advanced only by the short count. The source
+// handed to io.Copy must therefore be a value whose concrete type has no WriteTo (and the destination none with
+// ReadFrom) on every path.
+func c10CopySourceIsPlainReader(p *Prog, r *Report, rule string) {
+	fi := p.Func(kContentStore)
+	if fi == nil {
+		return
+	}
+	info := fi.Pkg.TypesInfo
+	f := p.FlatOf(fi)
+	hasMethod := func(t types.Type, name string) bool {
+		ms := types.NewMethodSet(t)
+		for i := 0; i < ms.Len(); i++ {
+			if ms.At(i).Obj().Name() == name {
+				return true
+			}
+		}
+		if _, isPtr := t.(*types.Pointer); !isPtr {
+			ms = types.NewMethodSet(types.NewPointer(t))
+			for i := 0; i < ms.Len(); i++ {
+				if ms.At(i).Obj().Name() == name {
+					return true
+				}
+			}
+		}
+		return false
+	}
+	n := 0
+	for _, gn := range f.Nodes {
+		if gn.Ast == nil {
+			continue
+		}
+		for _, c := range callsIn(gn.Ast, false) {
+			if !isFunc(info, c, "io", "Copy") || len(c.Args) != 2 {
+				continue
+			}
+			n++
+			cons := fmt.Sprintf("%s#copy-source-is-a-plain-reader/%d", kContentStore, n)
+			src := ast.Unparen(c.Args[1])
+			bad := ""
+			check := func(e ast.Expr) {
+				tv, ok := info.Types[e]
+				if !ok {
+					bad = "untyped source"
+					return
+				}
+				if _, isIface := tv.Type.Underlying().(*types.Interface); isIface {
+					bad = "the source is an arbitrary " + tv.Type.String() + " (it may implement io.WriterTo)"
+					return
+				}
+				if hasMethod(tv.Type, "WriteTo") {
+					bad = "the source type " + tv.Type.String() + " implements io.WriterTo"
+				}
+			}
+			if o := objOf(info, src); o != nil {
+				defs := f.ReachingDefs(gn.ID, o)
+				if len(defs) == 0 {
+					check(src)
+				}
+				for _, d := range defs {
+					if d.Rhs == nil {
+						bad = "the source is declared without a value"
+						continue
+					}
+					check(d.Rhs)
+				}
+				// the parameter's own value also reaches the copy when some path has no assignment
+				for _, po := range paramObjs(fi) {
+					if po == o {
+						if !f.MustPrecede(defNodes(defs), gn.ID) {
+							check(src)
+						}
+					}
+				}
+			} else {
+				check(src)
+			}
+			if dt, ok := info.Types[c.Args[0]]; ok && bad == "" {
+				t := dt.Type
+				if _, isIface := t.Underlying().(*types.Interface); isIface || hasMethod(t, "ReadFrom") {
+					bad = "the destination " + t.String() + " may implement io.ReaderFrom"
+				}
+			}
+			r.Check(bad == "", rule, cons, p.pos(c), "io.Copy moves the data through Read/Write pairs", bad+": the whole content arrives in one Write; after a short write the bytes kept for the retry and the rest of the source overlap, and the retry on the next root stores the tail twice while reporting success")
+		}
+	}
+	r.Floor(rule, "io.Copy-in-content.Store", n, 1)
+}
+
+func defNodes(defs []reachingDef) map[int]bool {
+	m := map[int]bool{}
+	for _, d := range defs {
+		m[d.Node] = true
+	}
+	return m
+}
